@@ -161,6 +161,7 @@ func C05(c *core.Ctx) {
 	var bases []*kj.Layout
 	var valuedOf []bool
 	var jobs []job
+	anniversary := map[int]bool{}
 	id := 0
 	for b := 0; b < nb; b++ {
 		valued := b%2 == 1
@@ -170,6 +171,20 @@ func C05(c *core.Ctx) {
 			valued = false
 		} else {
 			j = kj.Random(rng, kj.GenOpts{Valued: valued, Accruals: !valued, MaxDirs: 10}, 18262+rng.Intn(60))
+			// recurring bookings: the same booking again on the same day of the month one and two
+			// years later (directives that agree in month and day but not in the year)
+			if b%3 == 0 {
+				anniversary[b] = true
+				for _, d := range append([]kj.Dir(nil), j.Dirs...) {
+					if d.K == "trx" && !d.Acc.On && rng.Intn(3) > 0 {
+						for y := 1; y <= 1+rng.Intn(2); y++ {
+							t := d
+							t.Z = int(time.Unix(int64(d.Z)*86400, 0).UTC().AddDate(y, 0, 0).Unix() / 86400)
+							j.Dirs = append(j.Dirs, t)
+						}
+					}
+				}
+			}
 			// a few assertions (some multi-line), on never-booked positions (zero)
 			_, hi := journalSpan(j)
 			j.Dirs = append(j.Dirs, kj.Dir{K: "assert", Z: hi + 1, Multi: b%4 == 0, Bal: []kj.Bal{{A: "Assets:Bank", C: "XYZ", Q: 0}, {A: "Assets:Bank", C: "XAU", Q: 0}}}, kj.Dir{K: "open", Z: 18200, A: "Assets:Bank"})
@@ -188,6 +203,10 @@ func C05(c *core.Ctx) {
 			// structured orders besides random ones: by kind (both directions), reversed, by date descending
 			rank := map[string]int{"price": 0, "open": 1, "trx": 2, "assert": 3, "close": 4}
 			switch v % 6 {
+			case 0:
+				if anniversary[b] { // grouped by payee: recurring bookings next to each other
+					sort.SliceStable(dirs, func(a, c int) bool { return dirs[a].Desc < dirs[c].Desc })
+				}
 			case 2:
 				sort.SliceStable(dirs, func(a, c int) bool { return rank[dirs[a].K] < rank[dirs[c].K] })
 			case 3:
